@@ -43,6 +43,39 @@ PROPERTIES = {
              "old": "            intr_op.BinaryOperator.SUB, self.__rsub__(other), other, self", "new": "            intr_op.BinaryOperator.SUB, self.__rsub__(other), self, other"},
         ],
     },
+    "C03": {
+        "modules": C05_MODULES + ["contracts.c08_temporaries", "contracts.c08_cleanup", "contracts.c03_lowering", "contracts.c04_reset", "contracts.c04_wrappers"],
+        "level": "proof",
+        "explanation": "the statement is decided per lowering step, each proved from the real source: (1) the setter replacements of Signal/Variable/Temporary (<<=, .next, ^=, .push, @=, .value) accept exactly the documented target kinds and produce the assignment mode of the operator (C05 setter contracts); (2) IrGenerator._apply_impl lowers an assignment to exactly one SignalAssignment / SignalPush / VariableAssignment per open block according to mode, target kind and context kind (temporaries: immediate in sequential, continuous in concurrent contexts); (3) after an if/else execution continues in exactly the end blocks of both branches (25 x 2 arrangements of how branches end, incl. returns and state transitions), the If node being placed before its branches; (4) ir.Sequential._pushed_resettable_signals gives every pushed root -- also noreset roots and roots pushed only through a slice -- its default at the start of each step (reset_pushed), per event for arbitrary prior sets; (5) the process bodies built by std.sequential execute reset_pushed and then the user step exactly when trigger and step condition hold; (6) cleanup_bool_cast only replaces intermediates whose source is an intermediate, so a bool() taken before a later variable update keeps the old value.",
+        "assumptions": COMMON_ASSUME + [
+            "VHDL signal / variable semantics (a signal assignment in a process takes effect after the process suspends, the last one wins, unassigned signals hold; variables update immediately; concurrent assignments are continuous) are those of the language standard -- the contracts decide which VHDL statement kind each CoHDL assignment becomes, not the standard's semantics",
+            "NOT decided: match statements, for-break chains and for-else (CondSelect lowering, _prepare_ast.py ast.For / ast.Match), function inlining with return-value redirects (_value_branch._Redirect), capture of run-time indices at access time (_IntrinsicElemAccess): these are whole-AST transformations over the tracer state, outside the per-function contracts built so far",
+            "input SEQUENCES are covered by induction over activations only in the sense that every activation runs the same proved step structure; no simulator executes emitted designs",
+        ],
+        "canaries": [
+            {"name": "if-continuation", "contract": "cohdl._compiler.frontend._generate_ir:IrGenerator._apply_impl", "case": "if:body=own,orelse=x+y,1-open", "file": "cohdl/_compiler/frontend/_generate_ir.py",
+             "old": "                        for open in open_orelse:\n                            ret_blocks[open] = open\n                    elif not any_orelse:", "new": "                        for open in open_body:\n                            ret_blocks[open] = open\n                    elif not any_orelse:"},
+            {"name": "temporary-in-concurrent", "contract": "cohdl._compiler.frontend._generate_ir:IrGenerator._apply_impl", "case": "assign:Temporary,AUTO,CONCURRENT,1-open", "file": "cohdl/_compiler/frontend/_generate_ir.py",
+             "old": "                    assert self._mode is IrGenerator.Mode.CONCURRENT\n                    for block in open_blocks:\n                        block.append(ir.SignalAssignment(target, value))", "new": "                    assert self._mode is IrGenerator.Mode.CONCURRENT\n                    for block in open_blocks:\n                        block.append(ir.VariableAssignment(target, value))"},
+        ],
+    },
+    "C04": {
+        "modules": ["contracts.core_models", "contracts.c04_reset", "contracts.c04_wrappers"],
+        "level": "proof",
+        "explanation": "reset behaviour is decided at its two implementation points, both proved from the real source: (1) the process bodies std._context._sequential_impl builds (no reset / asynchronous / synchronous): for arbitrary truth values of trigger, reset and step condition the activation performs exactly reset_context followed by every on_reset action when reset is active (asynchronous: whatever the trigger; synchronous: at the trigger, whatever the step condition) and nothing else, otherwise reset_pushed + the user step when trigger and step condition hold; the sensitivity list contains the reset signal exactly for asynchronous resets; (2) ir.Sequential._pushed_resettable_signals expands reset_context into exactly one default assignment per root written or pushed in the context that has a default and is not noreset -- flags and default are those of the ROOT also when the access goes through a slice or view; roots without default or marked noreset get none; all objects are collected before the statements are rewritten (event streams enumerated, per-event contract for arbitrary prior sets).",
+        "assumptions": COMMON_ASSUME + [
+            "'an embedded coroutine returns to its first state': the state variable of a statemachine is an ordinary written signal with a default (ir.Statemachine.as_case_when), so it is covered as a resettable root; that as_case_when declares it with the first state as default is not under contract",
+            "polarity and edge selection live in std.Clock / std.Reset (__bool__ of the trigger / reset objects): modelled as arbitrary truth values, their own definition is not under contract",
+            "'from any state', 'after reset is released behaves as after power-up': follows from the structure above (reset assigns every resettable root its power-up default and executes nothing else); it is argued, not machine-checked over reachable design states -- no simulator",
+            "locally constructed objects (no default, re-initialised by re-executing their declaration, _init_replacement) are not under contract",
+        ],
+        "canaries": [
+            {"name": "sync-reset-ignores-step-cond", "contract": "cohdl.std._context:_sequential_impl.<helper.wrapper#2 (sync reset)>", "case": "sync-reset,function", "file": "cohdl/std/_context.py",
+             "old": "                if trigger:\n                    if reset:\n                        cohdl.reset_context()", "new": "                if trigger:\n                    if step_cond() and reset:\n                        cohdl.reset_context()"},
+            {"name": "noreset-of-root", "contract": "cohdl._core._ir._repr:Sequential._pushed_resettable_signals.<visit_objects>", "case": "view:WRITE", "file": "cohdl/_core/_ir/_repr.py",
+             "old": "                if root.has_default() and not root._noreset:", "new": "                if root.has_default() and not obj._noreset:"},
+        ],
+    },
     "C17": {
         "modules": ["contracts.core_models", "contracts.c17_proofs"],
         "level": "other",
